@@ -263,6 +263,20 @@ def width_configs(tier):
                 if 'weighted' in kind:
                     case['weights'] = [0] * n if (n + b) % 2 else [(i * 7 + n) % 3 for i in range(n)]
                 cfg.append(case)
+    # the add_* forms on a small host, operands handed over as a one-shot iterator / a tuple / a list, every count up to 12
+    for n in range(1, 13):
+        host = {'inputs': [f'x{i}' for i in range(n)], 'outputs': [f'h{n // 2}'] if n >= 2 else [], 'style': 'plain',
+                'gates': [[f'x{i}', 'INPUT', []] for i in range(n)] + [[f'h{i}', 'NOT' if i % 2 else 'IFF', [f'x{i}']] for i in range(n)]}
+        for k, kind in enumerate(('add_sum_n_bits', 'add_sum_n_bits_easy', 'add_weighted_eff', 'add_weighted_naive', 'add_pow2_m1')):
+            if kind == 'add_pow2_m1' and n not in (1, 3, 7):
+                continue
+            for h, hand in enumerate(('iter', 'tuple', 'list')):
+                case = {'kind': kind, 'basis': ['XAIG' if (n + k + h) % 2 else 'AIG', 'enum'], 'big_endian': (n + h) % 2 == 0,
+                        'uuid_seed': 5 * n + k + 1, 'row_seed': n, 'host': host, 'host_route': None, 'alias': None, 'hand': hand,
+                        'ops': {'idx': [n + (i * 5) % n if i % 2 else i for i in range(n)], 'repeat': False}}
+                if 'weighted' in kind:
+                    case['weights'] = [(i * 3 + n) % 4 for i in range(n)]
+                cfg.append(case)
     return cfg
 
 
@@ -299,7 +313,7 @@ SPEC = {
              'corner rows): sum(out*2^level) == sum(in*2^weight), distinct levels, a + b*2^shift, returned labels exist; '
              'host discipline (old gates structurally and functionally unchanged, interface unchanged), no XOR/NXOR among '
              'fresh gates under AIG, documented gate-count bounds. Non-trivial: n>=3 with a carry across levels.'
-             ' Added during the build: lopsided and long operand lists, live lists / one object for both numbers / tuples / iterators, all weights shifted beyond 256 as separate int objects, generators asked twice with the first result changed in between, hosts holding the labels about to be generated, a refused call (absent label, on a host of its own) before the ordinary one, constant-zero runs inside operands, and a finite sweep of the three generators over every operand count up to 40 and some up to 65 (257).'),
+             ' Added during the build: lopsided and long operand lists, live lists / one object for both numbers / tuples / iterators, all weights shifted beyond 256 as separate int objects, generators asked twice with the first result changed in between, hosts holding the labels about to be generated, a refused call (absent label, on a host of its own) before the ordinary one, constant-zero runs inside operands, and a finite sweep of the three generators over every operand count up to 40 and some up to 65 (257) and of the add_* forms over 1-12 operands handed over as iterator / tuple / list.'),
     'assumptions': ['reference tables from vlib/refsem.py; uuid4 replaced by a seeded stream'],
     'subs': [Sub('sum', cases, arith.with_refused_prelude(arith.with_label_collisions(check_sum)), {'quick': 1600, 'thorough': 125000})],
     'sharded': {'width_sweep': width_sweep},
